@@ -12,8 +12,8 @@ Property oracle (independent of the model): see `oracle`.
 """
 from __future__ import annotations
 
-import itertools
 import json
+import os
 import queue
 import sys
 import threading
@@ -33,10 +33,25 @@ THEOREMS = [
     "SleapVerif.C13.batches_partition",
     "SleapVerif.C13.batches_full_while_running",
     "SleapVerif.C13.reader_every_schedule_final",
+    "SleapVerif.C13.reader_always_ends_partial",
+    "SleapVerif.C13.reader_always_ends_counterexample",
 ]
 
-HANG_TIMEOUT = 20.0   # seconds without every live thread reaching a scheduling point
+# Seconds without every live thread reaching a scheduling point before a run is called a hang.
+# Deadlocks (every live thread parked, none enabled) are detected instantly and never wait for
+# this; the timeout only matters for a thread stuck OUTSIDE the scheduler's control.  It is
+# generous (shared, loaded box) and a hang verdict is confirmed by re-running the same case with
+# twice the timeout before it is reported.
+HANG_TIMEOUT = float(os.environ.get("VERIF_C13_HANG_TIMEOUT", "60"))
 MAX_STEPS = 2000
+
+
+class DecodeError(Exception):
+    """A custom Exception subclass, as a video backend might raise."""
+
+
+EXC = {"OSError": OSError, "IndexError": IndexError, "ValueError": ValueError,
+       "RuntimeError": RuntimeError, "KeyError": KeyError, "DecodeError": DecodeError}
 
 
 # ----------------------------------------------------------------------------- scheduler
@@ -47,9 +62,10 @@ class Abort(BaseException):
 class Sched:
     """The main thread owns the schedule; controlled threads park before every visible op."""
 
-    def __init__(self, schedule: str):
+    def __init__(self, schedule: str, timeout: float = HANG_TIMEOUT):
         self.cv = threading.Condition()
         self.schedule = schedule
+        self.timeout = timeout
         self.pending = {}       # tid -> (op, enabled_fn)
         self.granted = None
         self.finished = set()
@@ -98,7 +114,7 @@ class Sched:
         streak = (None, 0)   # (thread, consecutive polling ops): weak fairness for timed waits
         while True:
             with self.cv:
-                deadline = time.time() + HANG_TIMEOUT
+                deadline = time.time() + self.timeout
                 while (not all((x in self.pending) or (x in self.finished) for x in tids)
                        or self.granted is not None):
                     left = deadline - time.time()
@@ -130,6 +146,13 @@ class Sched:
             t += 1
 
 
+def pixel_id(img) -> int:
+    """The id FakeVideo paints into every pixel, read back from the top-left pixel (padding goes
+    right/bottom; resizing a constant image keeps it constant)."""
+    v = float(img.reshape(-1)[0])
+    return int(round(v * 255)) if img.dtype.is_floating_point else int(v)
+
+
 def item_tag(item) -> str:
     try:
         if item.get("image") is None:
@@ -147,6 +170,7 @@ class SchedQueue(queue.Queue):
         super().__init__(maxsize)
         self.s = sched
         self.taken = []
+        self.taken_pix = []     # pixel id of every frame at the moment the consumer takes it
 
     def _notfull(self):
         return self.maxsize <= 0 or self.qsize() < self.maxsize
@@ -168,6 +192,11 @@ class SchedQueue(queue.Queue):
         item = super().get(block=False)
         tag = item_tag(item)
         self.taken.append(tag)
+        if tag != "S":
+            try:
+                self.taken_pix.append(pixel_id(item["image"]))
+            except Exception as e:  # malformed item (only under mutation)
+                self.taken_pix.append(f"?{type(e).__name__}")
         self.s.amend("C", op="getS" if tag == "S" else "get." + tag)
         return item
 
@@ -179,21 +208,31 @@ class ReadCounter:
 
 
 class FakeVideo:
-    """Duck-typed `sio.Video`: every `video[i]` is a scheduling point of thread P and raises at
-    the injected position."""
+    """Duck-typed `sio.Video`: every `video[i]` is a scheduling point of thread P and raises (the
+    exception type of the case) at the injected position.  Like the videos embedded in a
+    `.pkg.slp`, all fake videos share one `filename`; the shape is uniform unless the case asks
+    for per-frame sizes.  Every pixel of frame `i` of video `v` carries the id `(7 i + v) % 251`."""
 
-    def __init__(self, vidx, n, sizes, sched, counter, fail_pos, by_index, raises=True):
+    filename = "fake.pkg.slp"
+
+    def __init__(self, vidx, n, sizes, sched, counter, fail_pos, by_index, raises=True, exc="OSError"):
         self.vidx = vidx
-        self.sizes = sizes            # per frame index (h, w), cyclic
+        self.sizes = sizes            # per frame index (h, w), cyclic; one entry = uniform video
         self.shape = (n, max(h for h, _ in sizes), max(w for _, w in sizes), 1)
-        self.s = sched
+        self.s = sched                # None: unscheduled (glue smoke)
         self.counter = counter
         self.fail_pos = fail_pos
         self.by_index = by_index      # VideoReader: position = frame index
         self.raises = raises          # False: the failure happens later in the reader's own code
+        self.exc = EXC[exc]
+        self.backend = None
 
     def size_of(self, i):
         return self.sizes[i % len(self.sizes)]
+
+    @staticmethod
+    def pix(vidx, i):
+        return (7 * i + vidx) % 251
 
     def __len__(self):
         return self.shape[0]
@@ -205,13 +244,14 @@ class FakeVideo:
         pos = i if self.by_index else self.counter.pos
         self.counter.pos += 1
         bad = (self.fail_pos is not None and pos == self.fail_pos) or not (0 <= i < self.shape[0])
-        self.s.park("P", ("readX." if bad else "read.") + f"{self.vidx}.{i}", lambda: True)
+        if self.s is not None:
+            self.s.park("P", ("readX." if bad else "read.") + f"{self.vidx}.{i}", lambda: True)
         if not (0 <= i < self.shape[0]):
             raise IndexError(f"frame {i} out of range")
         if bad and self.raises:
-            raise IOError(f"injected read failure at position {pos}")
+            raise self.exc(f"injected read failure at position {pos}")
         h, w = self.size_of(i)
-        return np.full((h, w, 1), (7 * i + self.vidx) % 251, dtype=np.uint8)
+        return np.full((h, w, 1), self.pix(self.vidx, i), dtype=np.uint8)
 
 
 _ENV = {}
@@ -228,18 +268,37 @@ def env():
     from sleap_nn.inference.predictors import Predictor
 
     class Rec(torch.nn.Module):
-        """Stub inference model: records the batch it is given and returns it."""
+        """Stub inference model: records the batch it is given — identity, size, the pixel id the
+        image carries NOW (consumption time) and the instances — and returns it (`mode`: "one"
+        output per batch, "none_odd": `None` for every second batch, "split": two outputs per
+        batch, "raise": the network fails on its first batch)."""
 
-        def __init__(self, sched):
+        def __init__(self, sched, mode="one"):
             super().__init__()
             self.batches = []
             self.s = sched
+            self.mode = mode
 
         def forward(self, ex):
-            b = [(int(v), int(f), int(sz[0]), int(sz[1]))
-                 for v, f, sz in zip(ex["video_idx"], ex["frame_idx"], ex["orig_size"])]
+            b = []
+            for j, (v, f, sz) in enumerate(zip(ex["video_idx"], ex["frame_idx"], ex["orig_size"])):
+                t = (int(v), int(f), int(sz[0]), int(sz[1]), pixel_id(ex["image"][j]))
+                if "instances" in ex:
+                    inst = ex["instances"][j, 0] / ex["eff_scale"][j]
+                    t += (tuple(tuple(None if x != x else round(float(x) * 16) / 16
+                                      for x in one.reshape(-1)) for one in inst),)
+                b.append(t)
+            k = len(self.batches)
             self.batches.append(b)
-            self.s.amend("C", suffix="+proc." + ",".join(str(x[1]) for x in b))
+            if self.s is not None:
+                self.s.amend("C", suffix="+proc." + ",".join(str(x[1]) for x in b))
+            if self.mode == "raise":
+                raise RuntimeError("stub network failure")
+            if self.mode == "none_odd" and k % 2 == 1:
+                return None
+            if self.mode == "split" and len(b) > 1:
+                cut = lambda sl: {kk: (vv[sl] if isinstance(vv, torch.Tensor) else vv) for kk, vv in ex.items()}
+                return [cut(slice(0, 1)), cut(slice(1, None))]
             return [ex]
 
     class MiniPredictor(Predictor):
@@ -255,7 +314,8 @@ def env():
             pass
 
         def _initialize_inference_model(self):
-            pass
+            # the `inference_model is None` branch of `_predict_generator`
+            self.inference_model = self._lazy_model
 
         def _make_labeled_frames_from_generator(self, g):
             pass
@@ -272,24 +332,35 @@ def env():
 
 
 # ----------------------------------------------------------------------------- cases
+def first_failing(case):
+    """VideoReader: first position of range(start, end) whose read raises (injected failure or
+    index past the end of the video); None if every read succeeds."""
+    n = case["n"]
+    start = 0 if case["start"] is None else case["start"]
+    stop = n if case["stop"] is None else case["stop"]
+    for i in range(start, stop):
+        if i >= n or (case["k"] is not None and i == case["k"]):
+            return i
+    return None
+
+
 def payloads(case):
     """Position → (frame_idx, video_idx, h, w): what the reader must attach to that position."""
     if case["kind"] == "video":
         sizes = case["sizes"]
-        return [(i, 0) + tuple(sizes[i % len(sizes)]) for i in range(case["n"] + 1)]
+        top = max(case["n"], case["stop"] or 0, case["start"] or 0) + 1
+        return [(i, 0) + tuple(sizes[i % len(sizes)]) for i in range(top)]
     vs = case["vsizes"]
     return [(f, v) + tuple(vs[v][f % len(vs[v])]) for v, f in case["frames"]]
 
 
 def model_params(case):
-    """(start, stop, fail) of the model for this case."""
+    """(start, stop, fail) of the model for this case.  Video length is not a model concept: a
+    read past the end of the video is a read failure at that position."""
     if case["kind"] == "video":
         start = 0 if case["start"] is None else case["start"]
         stop = case["n"] if case["stop"] is None else case["stop"]
-        k = case["k"]
-        if stop > case["n"] and (k is None or k > case["n"] or k < start):
-            k = case["n"]          # video[n] raises IndexError: a read failure at position n
-        return start, stop, k
+        return start, stop, first_failing(case)
     return 0, len(case["frames"]), case["k"]
 
 
@@ -301,31 +372,44 @@ def driver_line(case) -> str:
             f"{len(pays)} {body} {case['sched'] or '-'}").replace("  ", " ")
 
 
-def run_impl(case) -> dict:
-    """Run the real reader thread + the real `_predict_generator` under the schedule."""
+def inst_points(pos, j):
+    """Distinct coordinates (multiples of 1/2) for instance `j` of the labelled frame at `pos`."""
+    return [[pos + 0.5 * j, 2.0 * pos + 1.0], [j + 3.0, pos + 2.0]]
+
+
+def build_reader(case, s, q):
+    """The real reader object of the case on fake sources (`s` = scheduler or None)."""
     E = env()
     np, sio = E["np"], E["sio"]
-    s = Sched(case["sched"])
-    q = SchedQueue(case["cap"], s)
-    inst_key = bool(case.get("instances_key"))
+    exc = case.get("exc") or "OSError"
     if case["kind"] == "video":
         start = 0 if case["start"] is None else case["start"]
         fv = FakeVideo(0, case["n"], [tuple(x) for x in case["sizes"]], s, ReadCounter(start),
-                       case["k"], True)
-        rd = E["VideoReader"](fv, q, case["start"], case["stop"])
-    else:
-        ctr = ReadCounter(0)
-        vids = [FakeVideo(v, 64, [tuple(x) for x in sz], s, ctr, case["k"], False,
-                          raises=case.get("fail_kind") != "empty_instances")
-                for v, sz in enumerate(case["vsizes"])]
-        lfs = []
-        for pos, (v, f) in enumerate(case["frames"]):
-            insts = [sio.Instance.from_numpy(np.array([[1.0, 2.0], [3.0, 4.0]]), skeleton=E["skel"])]
-            if case.get("fail_kind") == "empty_instances" and pos == case["k"]:
-                insts = []
-            lfs.append(sio.LabeledFrame(video=vids[v], frame_idx=f, instances=insts))
-        labels = sio.Labels(labeled_frames=lfs, videos=vids, skeletons=[E["skel"]])
-        rd = E["LabelsReader"](labels, q, inst_key)
+                       case["k"], True, exc=exc)
+        return E["VideoReader"](fv, q, case["start"], case["stop"])
+    ctr = ReadCounter(0)
+    vids = [FakeVideo(v, 64, [tuple(x) for x in sz], s, ctr, case["k"], False,
+                      raises=case.get("fail_kind") != "empty_instances", exc=exc)
+            for v, sz in enumerate(case["vsizes"])]
+    ninst = case.get("ninst") or [1] * len(case["frames"])
+    lfs = []
+    for pos, (v, f) in enumerate(case["frames"]):
+        insts = [sio.Instance.from_numpy(np.array(inst_points(pos, j)), skeleton=E["skel"])
+                 for j in range(ninst[pos])]
+        if case.get("fail_kind") == "empty_instances" and pos == case["k"]:
+            insts = []
+        lfs.append(sio.LabeledFrame(video=vids[v], frame_idx=f, instances=insts))
+    labels = sio.Labels(labeled_frames=lfs, videos=vids, skeletons=[E["skel"]])
+    return E["LabelsReader"](labels, q, bool(case.get("instances_key")))
+
+
+def run_impl(case, timeout: float = HANG_TIMEOUT) -> dict:
+    """Run the real reader thread + the real `_predict_generator` under the schedule."""
+    E = env()
+    s = Sched(case["sched"], timeout)
+    q = SchedQueue(case["cap"], s)
+    inst_key = bool(case.get("instances_key"))
+    rd = build_reader(case, s, q)
     rd.daemon = True
     stat = {"p": "not-started", "c": "running"}
     orig_run, orig_join, orig_alive = rd.run, rd.join, rd.is_alive
@@ -344,7 +428,7 @@ def run_impl(case) -> dict:
 
     def join_wrapped(timeout=None):
         s.park("C", "join", lambda: "P" in s.finished)
-        orig_join(HANG_TIMEOUT)
+        orig_join(s.timeout)
 
     def alive_wrapped():
         # not called by the pinned code; any liveness test the consumer makes on the reader
@@ -355,19 +439,26 @@ def run_impl(case) -> dict:
     rd.run = run_wrapped
     rd.join = join_wrapped
     rd.is_alive = alive_wrapped
-    rec = E["Rec"](s)
+    rec = E["Rec"](s, case.get("rec_mode") or "one")
+    lazy = bool(case.get("lazy_model"))
     pred = E["MiniPredictor"](
-        preprocess=False,
-        preprocess_config={"batch_size": case["B"], "scale": 1.0, "is_rgb": False, "max_stride": 1,
+        preprocess=bool(case.get("preprocess")),
+        preprocess_config={"batch_size": case["B"], "scale": 1.0, "is_rgb": bool(case.get("is_rgb")),
+                           "max_stride": case.get("max_stride", 1),
                            "max_height": case.get("max_hw", 12), "max_width": case.get("max_hw", 12)},
-        pipeline=rd, inference_model=rec, instances_key=inst_key)
+        pipeline=rd, inference_model=None if lazy else rec, instances_key=inst_key)
+    pred._lazy_model = rec
     yields = []
 
     def consume():
         try:
-            for o in pred._predict_generator():
+            g = pred._predict_generator()
+            for o in g:
                 yields.append([(int(v), int(f), int(sz[0]), int(sz[1])) for v, f, sz in
                                zip(o["video_idx"], o["frame_idx"], o["orig_size"])])
+                if case.get("consumer") == "close":   # the caller abandons the generator early
+                    g.close()
+                    break
             stat["c"] = "finished"
         except Abort:
             stat["c"] = "aborted"
@@ -379,11 +470,12 @@ def run_impl(case) -> dict:
     ct = threading.Thread(target=consume, daemon=True)
     ct.start()
     status = s.run()
+    p_alive_at_verdict = orig_alive()
     if status != "done":
         s.abort()
-    ct.join(HANG_TIMEOUT)
+    ct.join(s.timeout)
     if rd.ident is not None:
-        orig_join(HANG_TIMEOUT)
+        orig_join(s.timeout)
     if stat["p"] == "not-started" and status == "done":
         stat["p"] = "never-started"
     return {
@@ -392,17 +484,18 @@ def run_impl(case) -> dict:
         "yields": yields,
         "rec": rec.batches,
         "taken": list(q.taken),
+        "taken_pix": list(q.taken_pix),
         "p": stat["p"], "c": stat["c"],
         "p_alive": orig_alive(), "c_alive": ct.is_alive(),
+        "p_alive_at_verdict": p_alive_at_verdict,
         "qsize": q.qsize(),
         "eff": "".join(t for _, t, _ in s.steps),
     }
 
 
 def impl_line(r) -> str:
-    """Same format as the driver's answer."""
-    batches = ";".join(",".join(f"{v}.{f}.{h}.{w}" for v, f, h, w in b) for b in r["yields"]
-                       if isinstance(b, list))
+    """Same format as the driver's answer (batches = what the network was given)."""
+    batches = ";".join(",".join(f"{x[0]}.{x[1]}.{x[2]}.{x[3]}" for x in b) for b in r["rec"])
     nsent = sum(1 for t in r["taken"] if t == "S")
     p = "done" if (r["p"] == "done" and not r["p_alive"]) else r["p"] + ("(alive)" if r["p_alive"] else "")
     c = "finished" if (r["c"] == "finished" and not r["c_alive"]) else r["c"] + ("(alive)" if r["c_alive"] else "")
@@ -414,13 +507,9 @@ def impl_line(r) -> str:
 
 
 # ----------------------------------------------------------------------------- property oracle
-def oracle(case, r) -> list[str]:
-    """The property, restated on what the implementation did (no reference to the model):
-    the items taken from the queue are the frames of positions start … min(end, first failing
-    position)-1, in order, each with the index / video index / size of its own position, followed
-    by exactly one marker; the consumer yields exactly those frames in batches of B (last one
-    partial, none empty); both threads end; nothing hangs."""
-    errs = []
+def wanted(case) -> list[tuple]:
+    """What must reach the network, from the case alone: (video_idx, frame_idx, h, w, pixel id
+    [, instances]) of positions start … min(end, first failing position) - 1."""
     if case["kind"] == "video":
         n = case["n"]
         start = 0 if case["start"] is None else case["start"]
@@ -429,15 +518,37 @@ def oracle(case, r) -> list[str]:
         bad = [i for i in idx if i >= n or (case["k"] is not None and i == case["k"])]
         if bad:
             idx = idx[: idx.index(bad[0])]
-        want = [(0, i) + tuple(case["sizes"][i % len(case["sizes"])]) for i in idx]
-    else:
-        fr = case["frames"]
-        m = len(fr) if case["k"] is None or not (0 <= case["k"] < len(fr)) else case["k"]
-        want = []
-        for v, f in fr[:m]:
-            sz = case["vsizes"][v]
-            want.append((v, f) + tuple(sz[f % len(sz)]))
-    want_tags = [f"{v}.{f}.{h}.{w}" for v, f, h, w in want]
+        return [(0, i) + tuple(case["sizes"][i % len(case["sizes"])]) + ((7 * i) % 251,) for i in idx]
+    fr = case["frames"]
+    m = len(fr) if case["k"] is None or not (0 <= case["k"] < len(fr)) else case["k"]
+    ninst = case.get("ninst") or [1] * len(fr)
+    counts = [0 if (case.get("fail_kind") == "empty_instances" and p == case["k"]) else ninst[p]
+              for p in range(len(fr))]
+    max_inst = max(counts) if counts else -1
+    want = []
+    for pos, (v, f) in enumerate(fr[:m]):
+        sz = case["vsizes"][v]
+        t = (v, f) + tuple(sz[f % len(sz)]) + ((7 * f + v) % 251,)
+        if case.get("instances_key"):
+            # one flat (x0, y0, x1, y1) per instance
+            inst = [tuple(x for node in inst_points(pos, j) for x in node) for j in range(counts[pos])]
+            if max_inst != 1:   # padded with NaN instances up to the maximum over the labels
+                inst += [(None,) * 4] * (max_inst - counts[pos])
+            t += (tuple(inst),)
+        want.append(t)
+    return want
+
+
+def oracle(case, r) -> list[str]:
+    """The property, restated on what the implementation did (no reference to the model):
+    the items taken from the queue are the frames of positions start … min(end, first failing
+    position)-1, in order, each with the index / video index / size / pixels (/ instances) of its
+    own position, followed by exactly one marker; the network is given exactly those frames in
+    batches of B (last one partial, none empty) and still sees each frame's own pixels at that
+    time; every output the network returns is yielded; both threads end; nothing hangs."""
+    errs = []
+    want = wanted(case)
+    want_tags = [f"{x[0]}.{x[1]}.{x[2]}.{x[3]}" for x in want]
     if r["status"] != "done":
         errs.append("hang: " + r["status"])
     if r["p"] != "done" or r["p_alive"]:
@@ -446,15 +557,27 @@ def oracle(case, r) -> list[str]:
         errs.append(f"consumer did not finish: {r['c']} alive={r['c_alive']}")
     if r["taken"] != want_tags + ["S"]:
         errs.append(f"items taken from the queue {r['taken']} != {want_tags + ['S']}")
-    flat = [x for b in r["yields"] for x in (b if isinstance(b, list) else [b])]
-    if flat != want:
-        errs.append(f"yielded frames {flat} != {want}")
-    sizes = [len(b) if isinstance(b, list) else 1 for b in r["yields"]]
+    if r["taken_pix"] != [x[4] for x in want]:
+        errs.append(f"pixel ids of the frames when taken from the queue {r['taken_pix']} != {[x[4] for x in want]}")
+    flat = [x for b in r["rec"] for x in b]
+    if [x[:4] for x in flat] != [x[:4] for x in want]:
+        errs.append(f"frames given to the network {[x[:4] for x in flat]} != {[x[:4] for x in want]}")
+    elif [x[4] for x in flat] != [x[4] for x in want]:
+        errs.append(f"frame content at consumption time: pixel ids {[x[4] for x in flat]} != {[x[4] for x in want]}")
+    elif case.get("instances_key") and [x[5:] for x in flat] != [x[5:] for x in want]:
+        errs.append(f"instances travelling with the frames {[x[5:] for x in flat]} != {[x[5:] for x in want]}")
+    sizes = [len(b) for b in r["rec"]]
     B = case["B"]
     if any(sz != B for sz in sizes[:-1]) or (sizes and not (1 <= sizes[-1] <= B)):
         errs.append(f"batch sizes {sizes} are not B={B} … with a non-empty last one")
-    if r["rec"] != [b for b in r["yields"] if isinstance(b, list)]:
-        errs.append("batches given to the network differ from the yielded ones")
+    mode = case.get("rec_mode") or "one"
+    kept = [b for i, b in enumerate(r["rec"]) if not (mode == "none_odd" and i % 2 == 1)]
+    yflat = [x for b in r["yields"] for x in b]
+    if yflat != [x[:4] for b in kept for x in b]:
+        errs.append(f"yielded records {yflat} != outputs of the network {[x[:4] for b in kept for x in b]}")
+    n_out = sum(2 if (mode == "split" and len(b) > 1) else 1 for b in kept)
+    if len(r["yields"]) != n_out:
+        errs.append(f"{len(r['yields'])} records yielded for {n_out} network outputs")
     if r["qsize"] != 0:
         errs.append(f"{r['qsize']} items left in the queue")
     return errs
@@ -489,13 +612,29 @@ def rand_k(rng, lo, hi):
     return rng.choice([max(0, lo - 1), hi, hi + 2])
 
 
+def rand_extras(rng, case) -> dict:
+    """Consumer-side variants (all inside the property's domain)."""
+    if case["k"] is not None:
+        case["exc"] = rng.choice(sorted(EXC))
+    if rng.random() < 0.12:
+        case["is_rgb"] = True
+    if rng.random() < 0.2:
+        case["rec_mode"] = rng.choice(["none_odd", "split"])
+    if rng.random() < 0.1:
+        case["lazy_model"] = True
+    if rng.random() < 0.1:
+        case["preprocess"] = True
+        case["max_stride"] = 2
+    return case
+
+
 def rand_case(rng) -> dict:
     cap = rng.choice([1, 1, 1, 2, 2, 3, 5, 0])
     B = rng.choice([1, 1, 2, 2, 3, 4, 7])
     sched = rand_sched(rng)
     if rng.random() < 0.5:
         n = rng.randrange(0, 9)
-        mode = rng.randrange(10)
+        mode = rng.randrange(12)
         if mode == 0:
             start, stop = None, None
         elif mode == 1:
@@ -507,13 +646,19 @@ def rand_case(rng) -> dict:
             start, stop = a, rng.randrange(0, a + 1)
         elif mode == 4:      # end beyond the video: video[n] raises
             start, stop = rng.randrange(0, n + 1), n + rng.randrange(1, 3)
+        elif mode == 5:      # start exactly at the end of the video
+            start, stop = n, rng.choice([None, n, n + 1, n + 3])
+        elif mode == 6:      # start past the end: the very first read raises
+            start = n + rng.randrange(1, 3)
+            stop = rng.choice([None, start, start + 1, start + 2])
         else:
             start = rng.randrange(0, n + 1)
             stop = rng.randrange(start, n + 1)
         lo = 0 if start is None else start
         hi = n if stop is None else stop
-        return {"kind": "video", "cap": cap, "B": B, "n": n, "start": start, "stop": stop,
-                "k": rand_k(rng, lo, hi), "sizes": rand_sizes(rng, 3), "sched": sched}
+        sizes = rand_sizes(rng, 3) if rng.random() < 0.15 else rand_sizes(rng, 1)[:1]
+        return rand_extras(rng, {"kind": "video", "cap": cap, "B": B, "n": n, "start": start, "stop": stop,
+                                 "k": rand_k(rng, lo, hi), "sizes": sizes, "sched": sched})
     nv = rng.choice([1, 2, 2, 3])
     m = rng.randrange(0, 8)
     pool = [(v, f) for v in range(nv) for f in range(0, 20)]
@@ -521,12 +666,14 @@ def rand_case(rng) -> dict:
     if rng.random() < 0.6:
         frames.sort()
     case = {"kind": "labels", "cap": cap, "B": B, "frames": [list(x) for x in frames],
-            "vsizes": [rand_sizes(rng, 1) for _ in range(nv)], "k": rand_k(rng, 0, m), "sched": sched}
-    if rng.random() < 0.25:
+            "vsizes": [rand_sizes(rng, 1)[:1] for _ in range(nv)], "k": rand_k(rng, 0, m), "sched": sched}
+    if rng.random() < 0.5:   # several instances in some frames (NaN padding to the maximum)
+        case["ninst"] = [rng.choice([1, 1, 2, 3]) for _ in range(m)]
+    if rng.random() < 0.35:
         case["instances_key"] = True
-        if case["k"] is not None and 0 <= case["k"] < m and rng.random() < 0.7:
+        if case["k"] is not None and 0 <= case["k"] < m and rng.random() < 0.6:
             case["fail_kind"] = "empty_instances"   # np.stack([]) raises inside the reader
-    return case
+    return rand_extras(rng, case)
 
 
 def small_grid(thorough: bool):
@@ -546,12 +693,13 @@ def small_grid(thorough: bool):
 
 
 def grid_case(kind, cap, B, start, n, k, sched) -> dict:
+    exc = None if k is None else sorted(EXC)[(cap + 2 * B + 3 * n + 5 * k + len(sched)) % len(EXC)]
     if kind == "video":
         return {"kind": "video", "cap": cap, "B": B, "n": start + n + 1, "start": start,
-                "stop": start + n, "k": k, "sizes": [[6, 8], [7, 5]], "sched": sched}
+                "stop": start + n, "k": k, "sizes": [[6, 8]], "sched": sched, "exc": exc}
     frames = [[0, 3], [1, 0], [0, 9], [1, 4]][:n]
     return {"kind": "labels", "cap": cap, "B": B, "frames": frames,
-            "vsizes": [[[6, 8]], [[5, 9]]], "k": k, "sched": sched}
+            "vsizes": [[[6, 8]], [[5, 9]]], "k": k, "sched": sched, "exc": exc}
 
 
 def case_key(case, eff):
@@ -567,10 +715,45 @@ def tags_of(case, r):
         t.append("empty-range")
     if k is not None and start <= k < stop:
         t.append("fail-first" if k == start else "fail-last" if k == stop - 1 else "fail-mid")
+        t.append("exc=" + ("ValueError(np.stack)" if case.get("fail_kind") else
+                           "IndexError(past-end)" if case["kind"] == "video" and k >= case["n"]
+                           else case.get("exc") or "OSError"))
     else:
         t.append("no-fail")
+    if case["kind"] == "video":
+        n = case["n"]
+        if case["start"] is None:
+            t.append("start-none")
+        if case["stop"] is None:
+            t.append("stop-none")
+        if stop > n:
+            t.append("end-beyond-video")
+        if start == n:
+            t.append("start-at-end")
+        if start > n:
+            t.append("start-past-end")
+        if stop < start:
+            t.append("inverted-range")
+        if len(case["sizes"]) > 1:
+            t.append("nonuniform-size")
+    else:
+        if len({v for v, _ in case["frames"]}) > 1:
+            t.append("multi-video")
+        if case["frames"] != sorted(case["frames"]):
+            t.append("non-monotone-frame-idx")
+        if case.get("ninst") and max(case["ninst"], default=1) > 1:
+            t.append("multi-instance")
+            if case.get("instances_key"):
+                t.append("instances-key-nan-padding")
+    if case.get("instances_key"):
+        t.append("instances-key")
     if case.get("fail_kind"):
         t.append("fail-by-empty-instances")
+    for flag in ("is_rgb", "lazy_model", "preprocess"):
+        if case.get(flag):
+            t.append(flag)
+    if case.get("rec_mode"):
+        t.append("outputs=" + case["rec_mode"])
     if any(st.startswith("C:C:get") and "put" in " ".join(r["steps"][i + 1:])
            for i, st in enumerate(r["steps"])):
         t.append("producer-blocked-on-full")
@@ -597,6 +780,9 @@ def shrink(case, fails):
             cands.append({**c, "B": c["B"] - 1})
         if c["cap"] > 1:
             cands.append({**c, "cap": 1})
+        for key in ("rec_mode", "is_rgb", "lazy_model", "preprocess", "ninst"):
+            if c.get(key):
+                cands.append({kk: vv for kk, vv in c.items() if kk != key})
         if c["kind"] == "video":
             start, stop, k = model_params(c)
             if c["stop"] is not None and stop - start > 0 and stop - 1 >= 0:
@@ -632,6 +818,113 @@ def shrink(case, fails):
     return best
 
 
+def run_checked(case) -> dict:
+    """`run_impl`, with a hang verdict (a thread stuck outside the scheduler: wall-clock based)
+    confirmed by a second run with twice the timeout before it counts."""
+    r = run_impl(case)
+    if r["status"].startswith("hang"):
+        r2 = run_impl(case, 2 * HANG_TIMEOUT)
+        if not r2["status"].startswith("hang"):
+            print(f"NOTE: slow run (>{HANG_TIMEOUT:.0f}s to a scheduling point) was not a hang on re-run",
+                  file=sys.stderr)
+        return r2
+    return r
+
+
+def consumer_abort_limit(chk: Check):
+    """Replay of `reader_always_ends_counterexample` on the implementation (NOT a C13 violation:
+    the statement assumes a consumer that keeps draining): the network raises on its first batch /
+    the caller closes the generator after the first record; the reader thread must then be found
+    alive and blocked in `put` — recorded in the evidence, reported only as a NOTE if it changes."""
+    out = {}
+    for how, extra in (("network-raises", {"rec_mode": "raise"}), ("generator-closed", {"consumer": "close"})):
+        case = {"kind": "video", "cap": 1, "B": 1, "n": 4, "start": 0, "stop": 3, "k": None,
+                "sizes": [[6, 8]], "sched": "CP", **extra}
+        r = run_impl(case)
+        stuck = r["status"].startswith("deadlock:P@put") and r["p_alive_at_verdict"]
+        out[how] = {"status": r["status"], "reader_alive_blocked_in_put": stuck, "consumer": r["c"][:40]}
+        if not stuck:
+            print(f"NOTE: consumer-abort limit ({how}) no longer reproduces: {r['status']}")
+    chk.extra["consumer_abort_limit"] = {"lean": "SleapVerif.C13.reader_always_ends_counterexample", **out}
+    chk.tag("limit-replay:consumer-abort")
+
+
+def glue_smoke(chk: Check):
+    """The real glue once per run, unscheduled, on the repo's own assets: a real predictor's
+    `make_pipeline(provider, path, queue_maxsize, start, end)` → `VideoReader.from_filename` /
+    `LabelsReader.from_filename` → `Queue(maxsize=queue_maxsize)` (an anchor), then the real
+    `_predict_generator` with a recording stub network.  Checked: queue type and capacity, range
+    defaults, frames delivered in order (incl. a range that runs past the end of the file), the
+    reader thread ended.  Guarded by generous join timeouts."""
+    E = env()
+    from omegaconf import OmegaConf
+    from sleap_nn.inference.predictors import SingleInstancePredictor
+    import common
+
+    assets = common.REPO / "tests" / "assets"
+    mp4, slp = assets / "centered_pair_small.mp4", assets / "minimal_instance.pkg.slp"
+    if not (mp4.exists() and slp.exists()):
+        chk.extra["glue_smoke"] = "skipped: test assets missing"
+        return
+    cfg = OmegaConf.create({
+        "data_config": {"preprocessing": {"scale": 1.0, "is_rgb": False, "max_height": None,
+                                          "max_width": None, "crop_hw": None}},
+        "model_config": {"backbone_config": {"unet": {"max_stride": 1, "output_stride": 1}},
+                         "head_configs": {"single_instance": {"confmaps": {"sigma": 1.5, "output_stride": 1,
+                                                                           "anchor_part": None}}}}})
+    runs = [("VideoReader", mp4, 2, 5, 9, 3, list(range(5, 9))),
+            ("VideoReader", mp4, 1, 1097, 1103, 2, [1097, 1098, 1099]),     # file has 1100 frames
+            ("VideoReader", mp4, 3, 1098, None, 4, [1098, 1099]),
+            ("LabelsReader", slp, 1, None, None, 2, [0])]
+    res = []
+    for provider, path, qmax, a, b, B, want in runs:
+        case = {"glue": provider, "path": str(path), "queue_maxsize": qmax, "start": a, "stop": b, "B": B}
+        rec = E["Rec"](None)
+        p = SingleInstancePredictor(confmap_config=cfg, confmap_model=E["torch"].nn.Identity(),
+                                    backbone_type="unet", skeletons=None, peak_threshold=0.2,
+                                    integral_refinement=None, batch_size=B, preprocess_config=None)
+        p.make_pipeline(provider, str(path), queue_maxsize=qmax, video_start_idx=a, video_end_idx=b)
+        p.inference_model = rec
+        rd = p.pipeline
+        errs = []
+        if type(rd.frame_buffer) is not queue.Queue or rd.frame_buffer.maxsize != qmax:
+            errs.append(f"frame_buffer is {type(rd.frame_buffer).__name__}(maxsize={rd.frame_buffer.maxsize}), "
+                        f"expected Queue(maxsize={qmax})")
+        if provider == "VideoReader" and (rd.start_idx, rd.end_idx) != (a or 0, 1100 if b is None else b):
+            errs.append(f"range ({rd.start_idx},{rd.end_idx}) from ({a},{b})")
+        if p.preprocess_config["batch_size"] != B:
+            errs.append("batch size not propagated")
+        got, stat = [], {}
+
+        def consume():
+            try:
+                for o in p._predict_generator():
+                    got.extend(int(f) for f in o["frame_idx"])
+                stat["c"] = "finished"
+            except BaseException as e:  # noqa
+                stat["c"] = "raise:" + type(e).__name__ + ":" + str(e)[:80]
+
+        rd.daemon = True
+        ct = threading.Thread(target=consume, daemon=True)
+        ct.start()
+        ct.join(2 * HANG_TIMEOUT)
+        if ct.is_alive() or stat.get("c") != "finished":
+            errs.append(f"consumer did not finish: {stat.get('c', 'hang')}")
+        if rd.is_alive():
+            errs.append("reader thread still alive")
+        if got != want:
+            errs.append(f"frames {got} != {want}")
+        if [x[1] for b_ in rec.batches for x in b_] != want or any(len(b_) != B for b_ in rec.batches[:-1]):
+            errs.append(f"batches {[[x[1] for x in b_] for b_ in rec.batches]}")
+        if not rd.frame_buffer.empty():
+            errs.append("items left in the queue")
+        chk.case(("glue", provider, qmax, a, b, B), None, ["glue:" + provider + ".from_filename"])
+        res.append({**case, "ok": not errs})
+        if errs:
+            chk.fail("glue smoke (make_pipeline → from_filename → _predict_generator) fails", case, errs, ())
+    chk.extra["glue_smoke"] = res
+
+
 def main(chk: Check):
     chk.build_and_audit()
     import_repo()
@@ -641,6 +934,9 @@ def main(chk: Check):
     if chk.replay_path:
         d = json.loads(open(chk.replay_path).read())
         case = d["case"]
+        if "glue" in case:
+            print("glue smoke cases are re-run by every check run; nothing to replay separately")
+            sys.exit(0)
         r = run_impl(case)
         errs = oracle(case, r)
         print("replay case:", json.dumps(case))
@@ -682,12 +978,17 @@ def main(chk: Check):
     chk.extra["n_all_schedule_cases"] = n_enum
 
     model_out = run_driver("C13.lean", [driver_line(c) for c in cases])
+    # warm-up (lazy torch/torchvision initialisation happens inside the consumer thread): not counted
+    run_impl({"kind": "video", "cap": 2, "B": 2, "n": 3, "start": 0, "stop": 3, "k": None,
+              "sizes": [[6, 8]], "sched": "PC", "is_rgb": True}, 5 * HANG_TIMEOUT)
+    glue_smoke(chk)
+    consumer_abort_limit(chk)
     hangs = 0
     disagreeing = []
     for case, m in zip(cases, model_out):
-        if hangs >= 3:
+        if hangs >= 1:     # a confirmed hang costs minutes; one replay is enough
             break
-        r = run_impl(case)
+        r = run_checked(case)
         if r["status"].startswith("hang"):
             hangs += 1
         il = impl_line(r)
@@ -745,17 +1046,23 @@ if __name__ == "__main__":
             "Lean 4 kernel",
             "queue.Queue: put/get atomic, FIFO, put blocks iff full (maxsize>0), get blocks iff empty",
             "threading: Thread.join returns iff run() ended; interleaving semantics at put/get/read/join granularity",
-            "harness shims: scheduler-controlled Queue subclass, fake video objects (raise at the injected position), "
-            "stub network, instance-level wrappers of Thread.run/join",
+            "harness shims: scheduler-controlled Queue subclass, fake video objects (constant-pixel frames carrying an "
+            "id, raise at the injected position), recording stub network, instance-level wrappers of "
+            "Thread.run/join/is_alive",
+            "wall clock only for the hang verdict (60 s to reach a scheduling point, confirmed by a re-run with 120 s)",
             "model-implementation tie is by correspondence (sampled + all schedules for small parameters), not by proof",
         ],
         rule="case = reader kind × capacity × batch size × range × failing position × effective schedule; "
-             "distinct = distinct tuple (payload tables not counted); corpus first, then every maximal schedule of "
-             "the model for small parameters, then random parameters/schedule strings",
+             "distinct = distinct tuple (payload tables, exception type and consumer variants not counted); corpus "
+             "first, then every maximal schedule of the model for small parameters, then random parameters/schedule "
+             "strings; plus 4 unscheduled glue runs through make_pipeline/from_filename on the repo's assets",
         assumptions=[
             "batch_size >= 1 (batch_size = 0 makes _predict_generator spin; outside the property)",
             "start/end are non-negative ints or None",
-            "the consumer does not raise (a consumer-side exception leaves the reader blocked; outside the property)",
+            "the consumer keeps draining the queue: if the network raises or the generator is closed early the "
+            "reader thread stays alive, blocked in put (Lean: reader_always_ends_counterexample; replayed on the "
+            "implementation every run, evidence key consumer_abort_limit); outside the property's statement",
+            "read failures are Exception subclasses (OSError, IndexError, ValueError, RuntimeError, KeyError, custom)",
             "only the first read failure matters (the loop is left at the first exception)",
         ],
     )
